@@ -52,6 +52,11 @@ def unpoison(e):
         C.poison = None
 
 
+class JobTimeout(BaseException):
+    """the per-job wall-clock budget ran out (raised from the SIGALRM handler; a BaseException so that neither the code
+    under verification nor the path loop can mistake it for an exception of the real code)"""
+
+
 class Ctx:
     def __init__(self):
         self.reset_path()
@@ -934,13 +939,18 @@ def explore(fn, max_paths=20000, on_exception=None):
         C.reset_path()
         C.stats["paths"] += 1
         if C.stats["paths"] > max_paths:
-            raise Undecided("path budget (%d paths)" % max_paths)
+            # keep what the explored paths established (refutations stand); the rest of the job is undecided
+            results.append((list(C.decisions), ("undecided", Undecided("path budget (%d paths)" % max_paths))))
+            break
         try:
             out = ("ok", fn())
             if C.poison is not None:  # swallowed by the code under verification
                 out = ("undecided", C.poison)
         except EngineError:
             raise
+        except JobTimeout:
+            results.append((list(C.decisions), ("undecided", Undecided("job budget exceeded after %d paths" % C.stats["paths"]))))
+            break
         except (OutOfReach, Undecided) as e:
             out = ("undecided", e)
         except Exception as e:  # path ends in a python exception
